@@ -124,6 +124,70 @@ def check_records(ctx, recs):
                                obligation="Time.build (C14.rollup) = Collector.__build_time"), not a["once"])
 
 
+def gen_anchor(rng):
+    """two or three configurations whose PE levels have different widths and whose component descriptions are ONE object (a YAML
+    anchor on the `local` list, on single entries, or on the whole level - the last keeps the width); every Einsum picks a configuration"""
+    import copy
+    ne = rng.choice([2, 3, 3])
+    cfgs = ["Small", "Big", "Huge"][:rng.choice([2, 2, 3])]
+    widths = rng.sample([1, 2, 4, 8, 12, 16, 32], len(cfgs))
+    local = [{"name": "Multiplier", "class": "Compute", "attributes": {"type": "mul"}}]
+    if rng.random() < 0.5:
+        local.append({"name": "Mem", "class": "DRAM", "attributes": {"bandwidth": rng.choice([64, 128])}})
+    if rng.random() < 0.4:
+        local.insert(0, {"name": "Adder", "class": "Compute", "attributes": {"type": "add"}})
+    how = rng.choice(["list", "list", "entry", "level", "none"])
+    arch, alias = {}, []
+    for ci, (cfg, w) in enumerate(zip(cfgs, widths)):
+        lvl = {"name": "PE[0..%d]" % (w - 1) if w > 1 or rng.random() < 0.5 else "PE", "local": copy.deepcopy(local)}
+        if how == "level" and ci > 0:
+            lvl = copy.deepcopy(arch[cfgs[0]][0]["subtree"][0])
+            alias.append([["architecture", cfgs[0], 0, "subtree", 0], ["architecture", cfg, 0, "subtree", 0]])
+        elif how == "list" and ci > 0:
+            alias.append([["architecture", cfgs[0], 0, "subtree", 0, "local"], ["architecture", cfg, 0, "subtree", 0, "local"]])
+        elif how == "entry" and ci > 0:
+            j = rng.randrange(len(local))
+            alias.append([["architecture", cfgs[0], 0, "subtree", 0, "local", j], ["architecture", cfg, 0, "subtree", 0, "local", j]])
+        arch[cfg] = [{"name": "System", "attributes": {"clock_frequency": rng.choice([1000, 10 ** 9])}, "subtree": [lvl]}]
+    names = ["T", "U", "Z"][:ne - 1] + ["Y"]
+    decl = {"A": ["M"], "B": ["M"]}
+    exprs, loop, st, bind = [], {}, {}, {}
+    prev = "A"
+    for i, n in enumerate(names):
+        decl[n] = ["M"]
+        exprs.append("%s[m] = %s[m] * B[m]" % (n, prev))
+        loop[n] = ["M"]
+        st[n] = {"space": [], "time": ["M"]}
+        cfg = cfgs[i % len(cfgs)] if rng.random() < 0.7 else rng.choice(cfgs)
+        b = [{"config": cfg, "prefix": "tmp/" + n}, {"component": "Multiplier", "bindings": [{"op": "mul"}]}]
+        if any(l["name"] == "Mem" for l in local) and rng.random() < 0.7:
+            b.append({"component": "Mem", "bindings": [{"tensor": "B", "rank": "M", "type": "payload", "format": "default"}]})
+        bind[n] = b
+        prev = n
+    d = {"einsum": {"declaration": decl, "expressions": exprs}, "mapping": {"loop-order": loop, "spacetime": st},
+         "architecture": arch, "bindings": bind,
+         "format": {t: {"default": {"rank-order": ["M"], "M": {"format": "C", "cbits": 32, "pbits": 32}}} for t in decl}}
+    if alias:
+        d["_alias"] = alias
+    return d, how
+
+
+def run_anchor(ctx, n):
+    """in-process (the sharing of objects is the point; `_alias` paths keep it through records and replays)"""
+    import random
+    rng = random.Random(ctx.seed * 7919 + 14)
+    recs = []
+    for i in range(n):
+        d, how = gen_anchor(rng)
+        c = specs.compile_spec(d, "metrics")
+        ctx.stat("g14a_" + how)
+        if not c.ok:
+            ctx.stat("g14a_compile_" + str(c.err_kind)); continue
+        recs.append(dict(gen="g14a", idx=i, mode="metrics", hashseed="", yaml=d, ok=True, err_kind=None, err_msg=None, text=c.text,
+                         time=metricsinfo.time_info(c.hf, d)))
+    check_records(ctx, recs)
+
+
 def run(ctx):
     ctx.rule = ("metrics-mode compilations of the accelerator specifications in the corpus, of generated architecture/binding/format specifications (G7) and of generated fusion histories (C13's generator: 2-5 Einsums, shared/distinct components, loop orders, configurations); "
                 "non-trivial = at least two registered (einsum, component) pairs; distinct = distinct (blocks, registrations, architecture)")
@@ -137,6 +201,7 @@ def run(ctx):
     items.append(dict(gen="g13m", count=120 * k, modes=["metrics"], time=True))
     recs = pool.collect(ctx, items)
     check_records(ctx, recs)
+    run_anchor(ctx, 40 * k)
     # the known findings' witnesses are replayed on every run
     for f in ctx.findings:
         w = f.get("witness")
